@@ -24,7 +24,7 @@ ValueError, whom notify() picked).  Checked
 """
 import itertools
 
-from harness import common
+from harness import common, names
 from harness.common import hx, unhx
 
 
@@ -147,7 +147,7 @@ def run_conc(cap, programs, chooser, max_steps=3000):
                 if st['op'][0] == 'a':
                     add_viol('nonblocking-acquire-waits',
                              f'thread t{st["i"]} is inside acquire({st["op"][1]}, blocking=False) and waits on the '
-                             f'condition (count {getattr(sem, "_count", "?")})')
+                             f'condition (count {names.semaphore_free(sem)})')
                 st['waiting'], st['ticket'] = True, ticket
             self_.waiters.append(ticket)
             self_.lock.release()
@@ -180,11 +180,12 @@ def run_conc(cap, programs, chooser, max_steps=3000):
     ghost = {'granted': {}, 'released': set(), 'held': 0}
 
     def check_step(s=None):
-        c = getattr(sem, '_count', None)
+        c = names.semaphore_free(sem)
         if c is not None and c < 0:
             add_viol('count-negative', f'_count = {c} after step {sched.step}')
         try:
-            out = sum(n - sem._lowest_sequence[t] for t, n in sem._tag_sequences.items())
+            nxt_, low_, _pend = names.sliding_window_state(sem)
+            out = sum(n - low_[t] for t, n in nxt_.items())
             if out > cap:
                 add_viol('more-outstanding-than-capacity',
                          f'{out} tokens outstanding (sum of next - lowest) with capacity {cap} after step {sched.step}')
@@ -255,7 +256,7 @@ def run_conc(cap, programs, chooser, max_steps=3000):
     quiescent = all((t, k) in ghost['released'] for t, n in ghost['granted'].items() for k in range(n))
     if deadlock and asleep and quiescent:
         add_viol('lost-wakeup', f'{deadlock}: threads {["t%d" % i for i in asleep]} sleep on the condition although '
-                                f'every handed-out token has been released (count {getattr(sem, "_count", "?")})')
+                                f'every handed-out token has been released (count {names.semaphore_free(sem)})')
     # translate to SemaConc labels
     labels, observed = [], []
     for e in log:
@@ -269,7 +270,7 @@ def run_conc(cap, programs, chooser, max_steps=3000):
             w = e['woken']
             labels.append(f'R{hx(op[1])}:{hx(op[2])}:' + (hx(tid_of(w[0])) if w and w[0] is not None else '-'))
         observed.append(e['res'] if e['res'] is not None else '?')
-    final = {'count': getattr(sem, '_count', None), 'asleep': asleep}
+    final = {'count': names.semaphore_free(sem), 'asleep': asleep}
     schedule = [f't{e["thread"]}:{labels[j]}->{observed[j]}' for j, e in enumerate(log)]
     return {'viol': viol, 'labels': labels, 'observed': observed, 'final': final, 'deadlock': deadlock,
             'choices': list(sched.choices), 'schedule': schedule, 'quiescent': quiescent}
